@@ -285,7 +285,7 @@ CLAIMED["C10"] = (
     "lexed by text comparison: '-' trims for block and variable ends, trim_blocks applies at block ends only and not behind a "
     "marker; (E5) the newline skipper advances by one byte, behind a newline test, under trim_blocks, outside loops; (E6) the "
     "pending-trim flag is cleared where it is consumed; (E7) the marker handed to a marker-consuming function is decoded from "
-    "the text, never a constant; (E8) no default delimiter literal in lexer code; (E9) a line ending is consumed CR first in every consumer; (E10) every lstrip site asks the line-start gate; (E11) lexer code that singles out the space as indentation knows the tab.  These are necessary conditions that "
+    "the text, never a constant; (E8) no default delimiter literal in lexer code; (E9) a line ending is consumed CR first in every consumer; (E10) every lstrip site asks the line-start gate; (E11) lexer code that singles out the space as indentation knows the tab; (E12) a delimiter search resumes one byte past a rejected candidate.  These are necessary conditions that "
     "regressions of the rule interaction break ('+' folded into the default case, trim_blocks after variable tags, lstrip "
     "for variable tags, a marker ignored at comment / raw ends).  NOT decided: which characters each primitive removes (CR/LF "
     "order, start-of-line detection), the delimiter search (leftmost-longest tie-breaking among prefix-sharing custom "
@@ -305,7 +305,7 @@ CLAIMED["C03"] = (
     "names (loop, caller) are bound where the engine binds them, tracker scopes end where frames end, every free name of a "
     "macro is enclosed, statement lists that run only behind a conditional jump (if / elif / else bodies, for-else) are "
     "walked in a scope of their own so that an assignment in an untaken branch does not hide an outer variable from a macro, "
-    "and the loop variable is resolved frame by frame; the rules of C04 (an expression over literals gives what it gives over variables); (L1) an engine iterator that knows its remaining length reports it as an exact size hint (loop.length / revindex / last are defined); (L2) loop.index / index0 / revindex / revindex0 / depth / depth0 / first stand in their documented relations (symbolic extraction from MIR).  NOT decided: rendered output as a function of run-time values - "
+    "and the loop variable is resolved frame by frame; the rules of C04 (an expression over literals gives what it gives over variables); (L1) an engine iterator that knows its remaining length reports it as an exact size hint (loop.length / revindex / last are defined); (L2) loop.index / index0 / revindex / revindex0 / depth / depth0 / first stand in their documented relations (symbolic extraction from MIR); (L3) whether a for-else branch runs is decided by what the iterator yielded.  NOT decided: rendered output as a function of run-time values - "
     "loop.index / revindex / previtem / nextitem arithmetic, whether an else branch runs, macro argument binding, filters "
     "and tests (no reference interpreter: that is another technique).",
     "DESIGN.md §3 C03",
